@@ -300,6 +300,14 @@ func (e *SpecEnv) Eval(x SExpr) SV {
 		if len(x.Pats) > 0 {
 			var ps []string
 			for _, p := range x.Pats {
+				if c, ok := p.(SCall); ok && c.Fn == "$multi" {
+					var ts []string
+					for _, a := range c.Args {
+						ts = append(ts, ne.Eval(a).Term)
+					}
+					ps = append(ps, "("+strings.Join(ts, " ")+")")
+					continue
+				}
 				ps = append(ps, "("+ne.Eval(p).Term+")")
 			}
 			bt = fmt.Sprintf("(! %s :pattern %s)", bt, strings.Join(ps, " :pattern "))
@@ -625,7 +633,8 @@ func (e *SpecEnv) evalCall(x SCall) SV {
 		return SV{Term: fmt.Sprintf("(and (not (= %s nil)) (not (alloc %s %s)))", r, r, e.Next0), Typ: boolT}
 	case "freshArr":
 		v := arg(0)
-		return SV{Term: fmt.Sprintf("(or (= (slen %s) 0) (>= (sarr %s) %s))", v.Term, v.Term, e.Next0), Typ: boolT}
+		// the backing array (if any) was allocated after function entry
+		return SV{Term: fmt.Sprintf("(or (= (sarr %s) 0) (>= (sarr %s) %s))", v.Term, v.Term, e.Next0), Typ: boolT}
 	case "allocated":
 		v := arg(0)
 		r := e.refOf(v)
@@ -649,6 +658,9 @@ func (e *SpecEnv) evalCall(x SCall) SV {
 	case "zipData":
 		_, _, _, _, zdata, _ := ioHeaps(e.G)
 		return SV{Term: fmt.Sprintf("(select %s %s)", e.Cur.Heap(zdata), arg(0).Term), Typ: types.NewSlice(types.Typ[types.Byte])}
+	case "xmlRem":
+		// ghost: number of tokens the xml decoder can still deliver (finite input)
+		return SV{Term: e.Cur.Heap(xmlRemHeap(e.G)), Typ: intT}
 	case "encCount":
 		// number of values accepted by xml Encode so far (ghost)
 		n, _ := encHeaps(e.G)
@@ -672,6 +684,13 @@ func (e *SpecEnv) evalCall(x SCall) SV {
 		}
 		t := e.ResolveType(id.V)
 		return SV{Term: fmt.Sprintf("(= (itag %s) %d)", v.Term, e.G.TE.Tag(t)), Typ: boolT}
+	case "string":
+		// conversion between string-kinded types (named string types share the Str sort)
+		v := arg(0)
+		if !isString(v.Typ) {
+			e.fail("string() of non-string %v", v.Typ)
+		}
+		return SV{Term: v.Term, Typ: types.Typ[types.String]}
 	case "itoa":
 		return SV{Term: "(itoa " + arg(0).Term + ")", Typ: types.Typ[types.String]}
 	case "atoi":
